@@ -702,9 +702,11 @@ def retransmit (mid : Nat) (c : Ctx) : Ctx :=
                                        conActive := s.conActive - 1 }
       c.sendPdu q' false true
     else
+      -- the node was popped off the send queue before coap_retransmit was called (coap_pop_next in coap_io_prepare_io_lkd)
+      -- and is re-inserted only in the branch above: it is NOT in the send queue while coap_session_connected runs
+      let c := c.upd fun s => { s with inflight := s.inflight.filter (·.sn ≠ q.sn) }
       let c := c.ackFlush
-      let c := if q.con then c.emit (nackOf .retries q) else c
-      c.upd fun s => { s with inflight := s.inflight.filter (·.sn ≠ q.sn) }
+      if q.con then c.emit (nackOf .retries q) else c
 
 /-- coap_dtls_establish -/
 def dtlsEstablishClient (c : Ctx) : Ctx :=
